@@ -123,6 +123,9 @@ def update(
     --------
     dask.config.merge
     """
+    if not isinstance(defaults, Mapping):
+        # e.g. a default that used to be a scalar and now is a mapping
+        defaults = None
     for k, v in new.items():
         k = canonical_name(k, old)
 
